@@ -321,12 +321,14 @@ func TestC02Concurrent(t *testing.T) {
 		cfg.Faults = 0
 		cfg.CommitWeight = 30
 		failg := func(v *drv.Violation) {
+			drv.SetFailing()
 			log := g.Log
 			g.Cleanup()
 			failCase(rt, replayDoc{Property: "C02", Kind: "history", Ops: log}, v)
 		}
 		runHistory(rt, g, cfg, nil, failg)
 		finishHistory(g, failg)
+		drv.SetFailing()
 		log := g.Log
 		g.Cleanup()
 		nr := rapid.IntRange(1, 6).Draw(rt, "readers")
